@@ -176,16 +176,16 @@ Section LoopComplete.
   Qed.
 End LoopComplete.
 
+Lemma dec_tag_len bs n t r : dec_tag bs = Ok (n, t, r) -> (length r < length bs)%nat.
+Proof.
+  intros H. apply dec_tag_sound in H. destruct H as (p & -> & Hp). apply is_tag_len in Hp.
+  rewrite app_length. lia.
+Qed.
+
 Section LoopFuel.
   Variable pv : pv_t.
   Variable num : N.
   Hypothesis pv_len : forall n t bs v r, pv n t bs = Ok (v, r) -> (length r <= length bs)%nat.
-
-  Lemma dec_tag_len bs n t r : dec_tag bs = Ok (n, t, r) -> (length r < length bs)%nat.
-  Proof.
-    intros H. apply dec_tag_sound in H. destruct H as (p & -> & Hp). apply is_tag_len in Hp.
-    rewrite app_length. lia.
-  Qed.
 
   Hypothesis pv_not_fuel : forall n t bs, pv n t bs <> Err OutOfFuel.
 
@@ -518,3 +518,106 @@ Corollary consume_group_complete_le d num body etag rest :
   (d <= N.to_nat 10000)%nat -> wf_fields d body -> is_tag etag num 4 ->
   consume_group num (body ++ etag ++ rest) = Ok (Some body, N.of_nat (length body + length etag)).
 Proof. intros Hle H Het. apply consume_group_complete; [eapply wf_fields_mono; eauto|exact Het]. Qed.
+
+(* ------------------------------------------------------------------ *)
+(* The verdict is decided by the bytes read: appending bytes to the input
+   changes nothing unless the verdict was Truncated.                    *)
+Definition ext_rel {A : Type} (R R' : result (A * list byte)) (ext : list byte) : Prop :=
+  match R with
+  | Ok (v, r) => R' = Ok (v, r ++ ext)
+  | Err Truncated => True
+  | Err e => R' = Err e
+  end.
+
+Lemma dec_varint_ext_rel bs ext : ext_rel (dec_varint bs) (dec_varint (bs ++ ext)) ext.
+Proof. exact (dec_varint_ext bs ext). Qed.
+
+Lemma dec_tag_ext bs ext : ext_rel (dec_tag bs) (dec_tag (bs ++ ext)) ext.
+Proof.
+  unfold dec_tag. pose proof (dec_varint_ext bs ext) as H.
+  destruct (dec_varint bs) as [[x r]|e].
+  - rewrite H. destruct (decode_tag x) as [[n t]|]; [destruct (n <? 1)|]; cbn; reflexivity.
+  - destruct e; cbn in *; trivial; rewrite H; reflexivity.
+Qed.
+
+Lemma dec_bytes_ext bs ext : ext_rel (dec_bytes bs) (dec_bytes (bs ++ ext)) ext.
+Proof.
+  unfold dec_bytes. pose proof (dec_varint_ext bs ext) as H.
+  destruct (dec_varint bs) as [[n r]|e].
+  - rewrite H. destruct (N.of_nat (length r) <? n) eqn:E; [exact I|].
+    destruct (take (N.to_nat n) r) as [[a b]|] eqn:Et.
+    + rewrite app_length. replace (N.of_nat (length r + length ext) <? n) with false by lia.
+      rewrite (take_ext _ _ _ _ ext Et). reflexivity.
+    + apply take_none in Et. lia.
+  - destruct e; cbn in *; trivial; rewrite H; reflexivity.
+Qed.
+
+Section LoopExt.
+  Variable pv : pv_t.
+  Variable num : N.
+  Variable ext : list byte.
+  Hypothesis pv_ext : forall n t bs, ext_rel (pv n t bs) (pv n t (bs ++ ext)) ext.
+  Hypothesis pv_len : forall n t bs v r, pv n t bs = Ok (v, r) -> (length r <= length bs)%nat.
+
+  Lemma group_loop_ext : forall g bs acc g',
+    (length bs < length g)%nat -> (length (bs ++ ext) < length g')%nat ->
+    ext_rel (group_loop pv num g bs acc) (group_loop pv num g' (bs ++ ext) acc) ext.
+  Proof.
+    induction g as [|x g IH]; intros bs acc g' Hg Hg'; [cbn in Hg; lia|].
+    destruct g' as [|x' g']; [cbn in Hg'; lia|]. cbn [group_loop].
+    pose proof (dec_tag_ext bs ext) as Ht.
+    destruct (dec_tag bs) as [[[n2 t2] r0]|e] eqn:E.
+    - cbn in Ht. rewrite Ht. apply dec_tag_len in E. destruct (t2 =? 4).
+      + destruct (n2 =? num); cbn; reflexivity.
+      + pose proof (pv_ext n2 t2 r0) as Hp. destruct (pv n2 t2 r0) as [[v' r']|e] eqn:Ep.
+        * cbn in Hp. rewrite Hp. apply pv_len in Ep. apply IH.
+          -- cbn [length] in Hg. lia.
+          -- cbn [length] in Hg'. rewrite app_length in *. lia.
+        * destruct e; cbn in *; trivial; rewrite Hp; reflexivity.
+    - destruct e; cbn in *; trivial; rewrite Ht; reflexivity.
+  Qed.
+End LoopExt.
+
+Theorem parse_val_ext : forall dep num typ bs ext,
+  ext_rel (parse_val dep num typ bs) (parse_val dep num typ (bs ++ ext)) ext.
+Proof.
+  induction dep as [|d IH]; intros num typ bs ext; rewrite !parse_val_eq;
+    pose proof (dec_varint_ext bs ext) as Hv; pose proof (dec_bytes_ext bs ext) as Hb;
+    destruct_typ typ; cbv iota; try (cbn; reflexivity);
+    try (destruct (dec_varint bs) as [[? ?]|e]; [cbn in Hv |- *; rewrite Hv; reflexivity
+                                                  |destruct e; cbn in *; trivial; rewrite Hv; reflexivity]);
+    try (destruct (dec_bytes bs) as [[? ?]|e]; [cbn in Hb |- *; rewrite Hb; reflexivity
+                                                 |destruct e; cbn in *; trivial; rewrite Hb; reflexivity]);
+    try (match goal with |- context [take ?k bs] =>
+           destruct (take k bs) as [[? ?]|] eqn:Et; [rewrite (take_ext _ _ _ _ ext Et); cbn; reflexivity|exact I] end).
+  apply group_loop_ext; [intros; apply IH|apply parse_val_len|cbn [length]; lia|cbn [length]; lia].
+Qed.
+
+Theorem consume_field_ext bs ext :
+  match consume_field bs with
+  | Ok res => consume_field (bs ++ ext) = Ok res
+  | Err Truncated => True
+  | Err e => consume_field (bs ++ ext) = Err e
+  end.
+Proof.
+  unfold consume_field. pose proof (dec_tag_ext bs ext) as Ht.
+  destruct (dec_tag bs) as [[[n t] r]|e] eqn:E.
+  - cbn in Ht. rewrite Ht. pose proof (parse_val_ext default_dep n t r ext) as Hp.
+    pose proof (dec_tag_len _ _ _ _ E) as Hl.
+    destruct (parse_val default_dep n t r) as [[v r']|e'] eqn:Ep.
+    + unfold ext_rel in Hp. rewrite Hp. apply parse_val_len in Ep. f_equal. f_equal. rewrite !app_length. lia.
+    + unfold ext_rel in Hp. destruct e'; trivial; rewrite Hp; reflexivity.
+  - destruct e; cbn in *; trivial; rewrite Ht; reflexivity.
+Qed.
+
+(* every proper prefix of a well-formed field is reported as Truncated:
+   nothing else can go wrong before the end of a well-formed field *)
+Theorem consume_field_prefix_truncated q ext num typ n :
+  wf_field default_dep (q ++ ext) num typ n -> N.of_nat (length q) < n ->
+  consume_field q = Err Truncated.
+Proof.
+  intros Hwf Hlt. apply consume_field_iff in Hwf. pose proof (consume_field_ext q ext) as He.
+  destruct (consume_field q) as [[[n' t'] m]|e] eqn:E.
+  - rewrite Hwf in He. inversion He; subst. apply consume_field_no_overread in E. lia.
+  - destruct e; trivial; rewrite Hwf in He; discriminate.
+Qed.
